@@ -74,7 +74,7 @@ class Baseline:
         b = self.out["operated_mapping_matrix"]
         d = np.asarray(case["data"], dtype=float); s = np.asarray(case["noise"], dtype=float)
         self.scale_d = float((np.abs(b).T @ np.abs(d / s ** 2)).max()) + 1e-300
-        self.scale_f = float((np.abs(b / s[:, None]).T @ np.abs(b / s[:, None])).max()) + EPS
+        self.scale_f = float((np.abs(b / s[:, None]).T @ np.abs(b / s[:, None])).max()) + 1e-7 * EPS + 1e-300
         self.w_tilde = self.sc.dataset.w_tilde if use_w else None
 
 
@@ -129,7 +129,7 @@ def _compare(ctx, q, got, base, key_prefix):
 # ---------------------------------------------------------------------------------------------
 @st.composite
 def subsets_case(draw):
-    c = draw(scene.scenarios(max_objs=3, img_kwargs=dict(max_inner=4, max_k=3), obj_kwargs=dict(max_sub=2, max_mesh=4)))
+    c = draw(scene.scenarios(max_objs=3, img_kwargs=dict(max_inner=4, max_k=3, unit_exponents=(0, 0, 0, -10, 10, 14, 18)), obj_kwargs=dict(max_sub=2, max_mesh=4)))
     c["fill_from_other_formalism"] = draw(st.booleans())
     c["positive_only"] = draw(st.sampled_from([False, False, True]))
     return c
@@ -256,7 +256,7 @@ def machine(run):
     Base = machine_base(run, Interp)
 
     class PreloadMachine(Base):
-        @initialize(case=scene.scenarios(max_objs=2, img_kwargs=dict(max_inner=4, max_k=3), obj_kwargs=dict(max_sub=2, max_mesh=4)),
+        @initialize(case=scene.scenarios(max_objs=2, img_kwargs=dict(max_inner=4, max_k=3, unit_exponents=(0, 0, 0, -10, 10, 14, 18)), obj_kwargs=dict(max_sub=2, max_mesh=4)),
                     subset_bits=st.integers(0, 31), fill_w=st.booleans(), positive_only=st.sampled_from([False, False, True]))
         def setup(self, case, subset_bits, fill_w, positive_only):
             self.op("setup", case=case, subset_bits=subset_bits, fill_w=fill_w, positive_only=positive_only)
